@@ -152,7 +152,9 @@ frg::expected<format_error> printf_format(A agent, const char *s, va_struct *vsp
 		}else{
 			int w = 0;
 			while(*s >= '0' && *s <= '9') {
-				w = w * 10 + (*s - '0');
+				bool overflow = __builtin_mul_overflow(w, 10, &w)
+						|| __builtin_add_overflow(w, *s - '0', &w);
+				FRG_ASSERT(!overflow);
 				++s;
 				FRG_ASSERT(*s);
 			}
@@ -171,7 +173,9 @@ frg::expected<format_error> printf_format(A agent, const char *s, va_struct *vsp
 				int value = 0;
 				// If no integer follows the '.', then precision is taken to be zero
 				while(*s >= '0' && *s <= '9') {
-					value = value * 10 + (*s - '0');
+					bool overflow = __builtin_mul_overflow(value, 10, &value)
+							|| __builtin_add_overflow(value, *s - '0', &value);
+					FRG_ASSERT(!overflow);
 					++s;
 					FRG_ASSERT(*s);
 				}
